@@ -276,6 +276,168 @@ fn translate_one(srcs: &[Src], db: &TypeDb, consts: &BTreeMap<String, i128>, t: 
         Ok(())
 }
 
+/// The opcode dispatch of `Vm::run`: one `(opcode, what the arm does)` entry per match arm `byte if byte == OpCode::X as u8 => …`,
+/// and a Lean function `op_X (a b : UInt64)` for every arm that passes a closure over two numbers to `binary_op_impl`.
+fn dispatch(srcs: &[Src], db: &TypeDb, consts: &BTreeMap<String, i128>, acc: &mut Acc, failed: &mut Vec<(String, String)>) -> R<String> {
+    let run = db
+        .impls
+        .iter()
+        .filter(|im| im.file == "vm.rs" && im.self_ty.head() == Some("Vm"))
+        .flat_map(|im| im.fns.iter())
+        .find(|f| f.sig.ident == "run");
+    let run = match run {
+        Some(r) => r,
+        None => return unsup("vm.rs", "Vm::run", "function not found"),
+    };
+    struct Finder<'x> {
+        arms: Vec<&'x syn::Arm>,
+    }
+    impl<'ast> syn::visit::Visit<'ast> for Finder<'ast> {
+        fn visit_expr_match(&mut self, m: &'ast syn::ExprMatch) {
+            let guarded = m.arms.iter().filter(|a| a.guard.is_some()).count();
+            if guarded >= 10 && self.arms.is_empty() {
+                self.arms = m.arms.iter().collect();
+                return;
+            }
+            syn::visit::visit_expr_match(self, m);
+        }
+    }
+    let mut f = Finder { arms: vec![] };
+    syn::visit::Visit::visit_block(&mut f, &run.block);
+    if f.arms.is_empty() {
+        return unsup("vm.rs", "Vm::run", "the opcode dispatch `match` (arms `byte if byte == OpCode::X as u8`) was not found");
+    }
+    let mut entries: Vec<(String, String)> = Vec::new();
+    let mut defs = String::new();
+    for a in f.arms {
+        let guard = match &a.guard {
+            Some((_, g)) => compact(&toks(&**g)),
+            None => {
+                entries.push(("_".into(), compact(&toks(&*a.body))));
+                continue;
+            }
+        };
+        // byte==OpCode::X as u8
+        let op = match guard.strip_prefix("byte==OpCode::").and_then(|r| r.strip_suffix("as u8")) {
+            Some(x) => x.trim().to_string(),
+            None => return unsup("vm.rs", "Vm::run", format!("dispatch arm guard `{}` is not `byte == OpCode::X as u8`", guard)),
+        };
+        // what the arm does: `self.h(args)` possibly followed by `?`, possibly the only statement of a block
+        let mut body: &Expr = &a.body;
+        loop {
+            match body {
+                Expr::Block(b) if b.block.stmts.len() == 1 => match &b.block.stmts[0] {
+                    Stmt::Expr(e, _) => body = e,
+                    _ => break,
+                },
+                Expr::Try(t) => body = &t.expr,
+                Expr::Paren(p) => body = &p.expr,
+                _ => break,
+            }
+        }
+        let mut what = truncate_chars(&compact(&toks(body)), 160);
+        if let Expr::MethodCall(mc) = body {
+            if toks(&*mc.receiver) == "self" {
+                what = format!("self.{}", mc.method);
+                if !mc.args.is_empty() && mc.method != "binary_op_impl" {
+                    what = truncate_chars(&compact(&toks(body)), 160);
+                }
+                if mc.method == "binary_op_impl" && mc.args.len() == 1 {
+                    if let Expr::Closure(c) = &mc.args[0] {
+                        let lean = format!("op_{}", op);
+                        what = format!("self.binary_op_impl(Fns.{})", lean);
+                        let callee_snapshot = acc.callees.clone();
+                        let r: R<String> = (|| {
+                            let mut cx = new_cx(srcs, db, consts, "vm.rs", &format!("Vm::run arm {}", op), Some("Vm".to_string()), &callee_snapshot);
+                            cx.ret_ty = LT::Value;
+                            if c.inputs.len() != 2 {
+                                return cx.un("closure passed to binary_op_impl does not take two parameters");
+                            }
+                            let mut names = Vec::new();
+                            for p in c.inputs.iter() {
+                                let (n, _) = cx.simple_pat(p)?;
+                                names.push(cx.declare(&n, LT::F64));
+                            }
+                            let tx = cx.expr(&c.body, Some(&LT::Value))?;
+                            if tx.ty != LT::Value {
+                                return cx.un("closure passed to binary_op_impl does not yield a Value");
+                            }
+                            if !cx.inputs.is_empty() {
+                                return cx.un("closure passed to binary_op_impl reads interpreter state");
+                            }
+                            Ok(format!(
+                                "\n/-- the closure `Vm::run` passes to `binary_op_impl` for `OpCode::{}`: `{}` -/\ndef {} ({} : UInt64) ({} : UInt64) : Rs.M Rs.Value :=\n  {}\n",
+                                op,
+                                truncate_chars(&compact(&toks(&mc.args[0])), 120),
+                                lean,
+                                names[0],
+                                names[1],
+                                wrap_pre(&tx.pre, format!("(Rs.M.ok {})", tx.term))
+                            ))
+                        })();
+                        match r {
+                            Ok(d) => {
+                                defs.push_str(&d);
+                                acc.names.push(lean);
+                            }
+                            Err(u) => {
+                                defs.push_str(&format!("\n-- UNTRANSLATED {} ({}: {}): {}\n", lean, u.file, u.item, u.why.replace('\n', " ")));
+                                failed.push((lean, format!("{}:{}: {}", u.file, u.item, u.why)));
+                            }
+                        }
+                    }
+                }
+            }
+        }
+        entries.push((op, what));
+    }
+    let mut out = defs;
+    out.push_str("\n/-- The opcode dispatch of `Vm::run`, arm by arm, in source order: (opcode, what the arm does). -/\ndef runDispatch : List (String × String) :=\n");
+    for (k, (o, w)) in entries.iter().enumerate() {
+        out.push_str(&format!("  {} ({}, {})\n", if k == 0 { "[" } else { "," }, lean_str(o), lean_str(w)));
+    }
+    out.push_str("  ]\n");
+    Ok(out)
+}
+
+fn new_cx<'a>(
+    srcs: &'a [Src],
+    db: &'a TypeDb,
+    consts: &'a BTreeMap<String, i128>,
+    file: &str,
+    item: &str,
+    self_ty: Option<String>,
+    callees: &'a BTreeMap<String, Sig>,
+) -> Cx<'a> {
+    Cx {
+        db,
+        srcs,
+        consts,
+        file: file.to_string(),
+        item: item.to_string(),
+        self_ty,
+        scopes: vec![BTreeMap::new()],
+        aliases: BTreeMap::new(),
+        places: BTreeMap::new(),
+        place_version: BTreeMap::new(),
+        inputs: Vec::new(),
+        written: Vec::new(),
+        has_effects: false,
+        fresh: 0,
+        ret_ty: LT::Unit,
+        havoc: BTreeMap::new(),
+        ignore_cfg_features: Vec::new(),
+        cfg_inputs: Vec::new(),
+        enums_used: BTreeSet::new(),
+        callees,
+        accessors: BTreeSet::new(),
+        loop_fuel: false,
+        loop_depth: 0,
+        epoch: 0,
+        struct_params: BTreeMap::new(),
+    }
+}
+
 pub fn translate(srcs: &[Src], db: &TypeDb, limits: &crate::tables::Limits) -> R<FnBodies> {
     let mut consts: BTreeMap<String, i128> = BTreeMap::new();
     for (n, v, _) in &limits.entries {
@@ -290,6 +452,14 @@ pub fn translate(srcs: &[Src], db: &TypeDb, limits: &crate::tables::Limits) -> R
             failed.push((t.lean.to_string(), format!("{}:{}: {}", u.file, u.item, u.why)));
         }
     }
+    let disp = match dispatch(srcs, db, &consts, &mut acc, &mut failed) {
+        Ok(d) => d,
+        Err(u) => {
+            failed.push(("runDispatch".to_string(), format!("{}:{}: {}", u.file, u.item, u.why)));
+            format!("\n-- UNTRANSLATED runDispatch ({}: {}): {}\n", u.file, u.item, u.why)
+        }
+    };
+    acc.defs.push_str(&disp);
     let Acc { defs, enums, names, accessors, .. } = acc;
     let mut text = String::new();
     text.push_str(LEAN_HEADER);
